@@ -270,6 +270,16 @@ func loadContracts(path string) (*ContractSet, error) {
 			case "loop":
 				// loop N invariant [tag] expr      (inductive: entry + preserved, assumed at the head)
 				// loop N body [tag] expr           (per-iteration postcondition: asserted at the back edge only)
+				if len(fields) >= 4 && fields[2] == "havoc" {
+					nr, _ := strconv.Atoi(fields[1])
+					n, err := parseRSL(strings.Join(fields[3:], " "))
+					if err != nil {
+						return fmt.Errorf("%s:%d: %v", path, line, err)
+					}
+					cur.Loops[nr] = append(cur.Loops[nr], Clause{Kind: "havoc", Node: n, Src: strings.Join(fields[3:], " "), Line: line,
+						Name: fmt.Sprintf("%s.loop%d.havoc@%d", cur.Short, nr, line)})
+					return nil
+				}
 				if len(fields) < 4 || (fields[2] != "invariant" && fields[2] != "body") {
 					return fmt.Errorf("%s:%d: bad loop clause", path, line)
 				}
